@@ -31,18 +31,39 @@ type dcCfg struct {
 	bufRows  int // 0 = default buffer
 	noJitter bool
 	interior bool
+	exp      int // the whole problem scaled by 2^exp (solid, spacing): the answer must scale with it
+}
+
+// scaledLattice is the lattice solid in units of k (a power of two, so scaling is exact)
+type scaledLattice struct {
+	l *latticeSolid3
+	k float64
+}
+
+func (s scaledLattice) Min() model3d.Coord3D { return s.l.Min().Scale(s.k) }
+func (s scaledLattice) Max() model3d.Coord3D { return s.l.Max().Scale(s.k) }
+func (s scaledLattice) Contains(c model3d.Coord3D) bool {
+	return s.l.Contains(c.Scale(1 / s.k))
 }
 
 func (c dcCfg) String() string {
+	if c.exp != 0 {
+		return fmt.Sprintf("gos=%d,rows=%d,nojitter=%v,interior=%v,scale=2^%d", c.maxGos, c.bufRows, c.noJitter, c.interior, c.exp)
+	}
 	return fmt.Sprintf("gos=%d,rows=%d,nojitter=%v,interior=%v", c.maxGos, c.bufRows, c.noJitter, c.interior)
 }
 
 func runDC(id int, l *latticeSolid3, cfg dcCfg) dcRecord {
 	rec := dcRecord{Id: id, N: l.n[:], Inside: latticeBits(l), Variant: "DualContouring", Cfg: cfg.String(), Tris: [][3]int{}}
 	rec.Panic = protect(func() {
+		k := math.Ldexp(1, cfg.exp)
+		var solid model3d.Solid = l
+		if cfg.exp != 0 {
+			solid = scaledLattice{l, k}
+		}
 		dc := &model3d.DualContouring{
-			S:        model3d.SolidSurfaceEstimator{Solid: l},
-			Delta:    1,
+			S:        model3d.SolidSurfaceEstimator{Solid: solid},
+			Delta:    k,
 			NoJitter: cfg.noJitter,
 			MaxGos:   cfg.maxGos,
 			Clip:     true,
@@ -78,7 +99,7 @@ func runDC(id int, l *latticeSolid3, cfg dcCfg) dcRecord {
 			code := 0
 			ok := true
 			for _, v := range c.Array() {
-				w := v - jit
+				w := v/k - jit
 				f := math.Floor(w)
 				if w-f < 0.0009 || w-f > 0.9991 || f < 0 || f > 15 {
 					ok = false
@@ -100,7 +121,7 @@ func runDC(id int, l *latticeSolid3, cfg dcCfg) dcRecord {
 		})
 		rec.Ninterior = len(pts)
 		for _, p := range pts {
-			if !l.Contains(p) {
+			if !solid.Contains(p) {
 				rec.Interiorbad++
 			}
 		}
@@ -110,7 +131,7 @@ func runDC(id int, l *latticeSolid3, cfg dcCfg) dcRecord {
 
 func init() {
 	// c02-dc out= stats= plan=  items  all:NX,NY,NZ:cfgs | rand:NX,NY,NZ:COUNT:cfgs
-	// cfgs = comma separated  gos/rows/nojitter/interior  e.g. 1/0/0/0,3/4/1/1
+	// cfgs = comma separated  gos/rows/nojitter/interior[/scale exponent]  e.g. 1/0/0/0,3/4/1/1,1/0/0/0/-12
 	register("c02-dc", func(a args) {
 		out := newNDWriter(a.str("out", "records.ndjson"))
 		defer out.close()
@@ -121,7 +142,14 @@ func init() {
 			var res []dcCfg
 			for _, item := range strings.Split(s, ",") {
 				f := strings.Split(item, "/")
-				res = append(res, dcCfg{atoi(f[0]), atoi(f[1]), f[2] == "1", f[3] == "1"})
+				c := dcCfg{maxGos: atoi(f[0]), bufRows: atoi(f[1]), noJitter: f[2] == "1", interior: f[3] == "1"}
+				if len(f) > 4 {
+					c.exp = atoi(strings.TrimPrefix(f[4], "-"))
+					if strings.HasPrefix(f[4], "-") {
+						c.exp = -c.exp
+					}
+				}
+				res = append(res, c)
 			}
 			return res
 		}
